@@ -201,9 +201,6 @@ def _make():
             elif lt == "custom":
                 same(need(L, "vpnconn_lan_net", "left"), lnet, "left lan net is the custom lnet")
                 same(need(L, "vpnconn_lan_netmask", "left"), lmask, "left lan netmask is the custom lmask")
-            else:
-                absent(L, "vpnconn_lan_net", "left")
-                absent(R, "vpnconn_remote_net", "right")
             if rt == "custom":
                 for key_l, key_r, fld, cust in (("vpnconn_remote_net", "vpnconn_lan_net", "netconfig.net_ip", rnet), ("vpnconn_remote_netmask", "vpnconn_lan_netmask", "netconfig.netmask", rmask)):
                     gl, gr = need(L, key_l, "left"), need(R, key_r, "right")
@@ -213,8 +210,6 @@ def _make():
                     else:
                         expect_cases(eng, gr, iface_of(nics2, ifs2, roles2["lan_nic"], fld), f"right {key_r} is the right lan nic's {fld}")
             else:
-                absent(L, "vpnconn_remote_net", "left")
-                absent(R, "vpnconn_lan_net", "right")
                 if rt == "modeconfig":
                     same(need(L, "vpnconn_remote_modeconfig_ip", "left"), mcip, "modeconfig ip")
             # peers point at each other
@@ -222,7 +217,6 @@ def _make():
                 expect_cases(eng, need(L, "vpnconn_peer_ip", "left"), iface_of(nics2, ifs2, roles2["internet_nic"], "ip"), "left peer ip is the right internet address")
                 same(need(L, "vpnconn_activation", "left"), "ALWAYS", "left activation")
             else:
-                absent(L, "vpnconn_peer_ip", "left")
                 same(need(L, "vpnconn_activation", "left"), "PASSIVE", "left activation (road warrior)")
             expect_cases(eng, need(R, "vpnconn_peer_ip", "right"), iface_of(nics1, ifs1, roles1["internet_nic"], "ip"), "right peer ip is the left internet address")
             same(need(R, "vpnconn_activation", "right"), "ALWAYS", "right activation")
